@@ -55,7 +55,7 @@ def _exec(self, suspensions, assignments):
     res = w.exec_phase(suspensions, assignments)
     if w.ended and w.exception is not None and w.exception[0] == "exec":
         e = w.exception[2]
-        w.flag({"C08"}, "executor-raised", f"tick {w.tick}: {type(e).__name__}: {e}", ("model-reject:" + w.last_reject) if w.last_reject else w.exception[3])
+        w.flag({"C08"}, "executor-raised", f"tick {w.tick}: {type(e).__name__}: {e}", ("model-reject:" + w.reject_reason()) if w.reject_reason() else w.exception[3])
         raise e
     for m in w.mm[n0:]:
         if m.kind == "inadmissible-command-executed":
